@@ -48,6 +48,59 @@ def _argv(fn: FunctionInfo, call: ast.Call) -> list[ast.expr]:
     raise AnalysisError(f"{where(fn, call)}: argv is not a list display ({norm(arg)}); cannot be whitelisted")
 
 
+def _argvs(fn: FunctionInfo, call: ast.Call) -> list[tuple[list[ast.expr], ast.For | None]]:
+    """The argv displays a spawn site can run: one, or - for `[..., *command]` inside `for command in <local non-empty display of displays>` -
+    one per entry of that table (with the loop, for the must-run judgement)."""
+    argv = _argv(fn, call)
+    stars = [e for e in argv if isinstance(e, ast.Starred)]
+    if not stars:
+        return [(argv, None)]
+    if len(stars) != 1 or not isinstance(stars[0].value, ast.Name):
+        raise AnalysisError(f"{where(fn, call)}: argv with an unpacked operand that is not a loop variable; cannot be whitelisted")
+    var = stars[0].value.id
+    loop = next((a for a in ancestors(call) if isinstance(a, ast.For) and isinstance(a.target, ast.Name) and a.target.id == var), None)
+    table = loop.iter if loop is not None else None
+    if isinstance(table, ast.Name):
+        defs = [s_ for s_ in stores_of(fn.node, table.id) if isinstance(s_, ast.Assign)]
+        table = defs[0].value if len(defs) == 1 else None
+    if not (isinstance(table, (ast.Tuple, ast.List)) and table.elts and all(isinstance(e, (ast.List, ast.Tuple)) for e in table.elts)):
+        raise AnalysisError(f"{where(fn, call)}: argv unpacks `{var}`, which is not a loop variable over a literal table of commands; cannot be whitelisted")
+    out = []
+    for entry in table.elts:
+        full: list[ast.expr] = []
+        for e in argv:
+            full += list(entry.elts) if e is stars[0] else [e]
+        out.append((full, loop))
+    return out
+
+
+class _Subst(ast.NodeTransformer):
+    def __init__(self, bound: dict[str, ast.expr]) -> None:
+        self.bound = bound
+
+    def visit_Name(self, node: ast.Name) -> ast.AST:  # noqa: N802
+        return self.bound.get(node.id, node)
+
+
+def _must_run(h: FunctionInfo, call: ast.Call, loop: ast.For | None) -> bool:
+    """Every normal path through helper h runs the spawn site (for a table-driven site: the loop, whose table is a non-empty display, and the site
+    unconditionally inside its body)."""
+    cfg = cfg_of(h)
+    if loop is not None:
+        st = stmt_of(call)
+        if not any(st is b for b in loop.body) or loop.orelse:
+            return False
+        before = loop.body[: next(i for i, b in enumerate(loop.body) if b is st)]
+        if any(isinstance(x, (ast.Break, ast.Continue, ast.Return, ast.Raise)) for b in before for x in ast.walk(b)):
+            return False
+        anchor = [n for n in cfg.live_nodes() if n.stmt is loop]
+    else:
+        anchor = cfg_nodes_containing(cfg, call)
+    if not anchor:
+        return False
+    return not (cfg.reach([cfg.entry], avoid=lambda n: n in anchor, normal_only=True) & {cfg.exit})
+
+
 def _git_command(argv: list[ast.expr]) -> tuple[tuple[str, ...], list[ast.expr], ast.expr | None]:
     """(sub-command words, remaining operand elements, the -C repository element)."""
     elts = list(argv)
@@ -106,41 +159,74 @@ def run(prog: Program, ctx: Ctx) -> None:  # noqa: PLR0912,PLR0915
     acquire: list[tuple[FunctionInfo, ast.Call, list[ast.expr], ast.expr | None]] = []
     releases: dict[str, list[tuple[FunctionInfo, ast.Call, list[ast.expr], ast.expr | None]]] = {}
     parsed = []
-    for fn, call, name in sites:
-        k = key(fn, call)
-        if fn.module.name != "_griffe.git":
-            ctx.ob("R3", k, False, f"{name} outside the git module", where(fn, call))
+    # what stands for a spawn site further down: (function, node in that function, ...).  A site in a private helper of the git module (every call
+    # site visible) is lifted to the helper's call sites: the node is the call of the helper, the operands are rewritten in the caller's terms.
+    ORIG: dict[int, tuple[FunctionInfo, ast.Call, bool]] = {}  # id(lifted node) -> (helper, spawn call, runs on every normal path of the helper)
+    from sa.util import private_call_sites
+
+    def bind(h: FunctionInfo, c: ast.Call) -> dict[str, ast.expr] | None:
+        if any(isinstance(a, ast.Starred) for a in c.args) or any(k.arg is None for k in c.keywords):
+            return None
+        a = h.node.args
+        bound = dict(zip([x.arg for x in (*a.posonlyargs, *a.args)], c.args))
+        bound.update({k.arg: k.value for k in c.keywords})
+        return bound
+
+    def lifted(fn: FunctionInfo, node: ast.Call, argv: list[ast.expr], must: bool, spawn: tuple[FunctionInfo, ast.Call], depth: int = 0):
+        callers = private_call_sites(prog, fn) if (fn.module.name == "_griffe.git" and fn.cls is None and not fn.is_generator and depth < 3) else None
+        if not callers:
+            yield fn, node, argv, must, spawn
+            return
+        import copy
+
+        for g, c in callers:
+            bound = bind(fn, c)
+            if bound is None:
+                yield fn, node, argv, must, spawn
+                return
+            argv2 = [_Subst(bound).visit(copy.deepcopy(e)) for e in argv]
+            yield from lifted(g, c, argv2, must, spawn, depth + 1)
+
+    for fn0, call0, name in sites:
+        k = key(fn0, call0)
+        if fn0.module.name != "_griffe.git":
+            ctx.ob("R3", k, False, f"{name} outside the git module", where(fn0, call0))
             continue
         if not name.startswith("subprocess."):
-            ctx.ob("R3", k, False, f"{name}: shell-style spawn cannot be whitelisted", where(fn, call))
+            ctx.ob("R3", k, False, f"{name}: shell-style spawn cannot be whitelisted", where(fn0, call0))
             continue
-        shell = kwarg(call, "shell")
+        shell = kwarg(call0, "shell")
         if shell is not None and not (isinstance(shell, ast.Constant) and shell.value is False):
-            ctx.ob("R3", k, False, "shell=True command cannot be whitelisted", where(fn, call))
+            ctx.ob("R3", k, False, "shell=True command cannot be whitelisted", where(fn0, call0))
             continue
-        argv = _argv(fn, call)
-        words, operands, repo = _git_command(argv)
-        parsed.append((fn, call, words, operands, repo))
-        allowed = words in ALLOWED or words[:1] in ALLOWED and len(words) == 1
-        ok = allowed
-        why = ALLOWED.get(words, "not in whitelist")
-        if words == ("tag",):
-            ok = any(isinstance(e, ast.Constant) and e.value in ("-l", "--list") for e in operands)
-            why = "git tag without -l would create a tag" if not ok else why
-        if words == ("branch",):
-            consts = [e.value for e in operands if isinstance(e, ast.Constant)]
-            ok = "-D" in consts or ("--force" in consts and ("--delete" in consts or "-d" in consts)) or ("-f" in consts and "-d" in consts)
-            why = ("git branch must be a forced delete (-D): without a delete flag it creates a branch, and a plain -d is refused for a ref "
-                   "that is not merged into HEAD (silently, with check=False), leaving the temporary branch behind") if not ok else why
-            if ok:
-                releases.setdefault("branch -D", []).append((fn, call, operands, repo))
-        if words == ("worktree", "add"):
-            acquire.append((fn, call, operands, repo))
-        if words == ("worktree", "remove"):
-            releases.setdefault("worktree remove", []).append((fn, call, operands, repo))
-        if words == ("worktree", "prune"):
-            releases.setdefault("worktree prune", []).append((fn, call, operands, repo))
-        ctx.ob("R3", k, ok, f"git {' '.join(words)}: {why}", where(fn, call))
+        for argv0, loop0 in _argvs(fn0, call0):
+            for fn, call, argv, must, spawn in lifted(fn0, call0, argv0, True, (fn0, call0)):
+                if call is not call0:
+                    must = _must_run(fn0, call0, loop0)
+                    ORIG[id(call)] = (fn0, call0, must)
+                words, operands, repo = _git_command(argv)
+                parsed.append((fn, call, words, operands, repo))
+                allowed = words in ALLOWED or words[:1] in ALLOWED and len(words) == 1
+                ok = allowed
+                why = ALLOWED.get(words, "not in whitelist")
+                is_release = call is call0 or must  # a helper that may skip the command is no release
+                if words == ("tag",):
+                    ok = any(isinstance(e, ast.Constant) and e.value in ("-l", "--list") for e in operands)
+                    why = "git tag without -l would create a tag" if not ok else why
+                if words == ("branch",):
+                    consts = [e.value for e in operands if isinstance(e, ast.Constant)]
+                    ok = "-D" in consts or ("--force" in consts and ("--delete" in consts or "-d" in consts)) or ("-f" in consts and "-d" in consts)
+                    why = ("git branch must be a forced delete (-D): without a delete flag it creates a branch, and a plain -d is refused for a ref "
+                           "that is not merged into HEAD (silently, with check=False), leaving the temporary branch behind") if not ok else why
+                    if ok and is_release:
+                        releases.setdefault("branch -D", []).append((fn, call, operands, repo))
+                if words == ("worktree", "add"):
+                    acquire.append((fn, call, operands, repo))
+                if words == ("worktree", "remove") and is_release:
+                    releases.setdefault("worktree remove", []).append((fn, call, operands, repo))
+                if words == ("worktree", "prune") and is_release:
+                    releases.setdefault("worktree prune", []).append((fn, call, operands, repo))
+                ctx.ob("R3", key(fn0, f"{norm(call0, 60)}|{' '.join(words)}"), ok, f"git {' '.join(words)}: {why}", where(fn0, call0))
 
     if not acquire:
         raise AnalysisError("C20: no `git worktree add` site found (anchor vanished)")
@@ -193,8 +279,9 @@ def run(prog: Program, ctx: Ctx) -> None:  # noqa: PLR0912,PLR0915
 
         for y in ynodes:
             # (c) failing add must not reach the yield
-            res_names = [t.id for s in [stmt_of(call)] if isinstance(s, ast.Assign) for t in s.targets if isinstance(t, ast.Name)]
-            check_kw = kwarg(call, "check")
+            h_fn, spawn_call, _m = ORIG.get(id(call), (fn, call, True))
+            res_names = [t.id for s in [stmt_of(spawn_call)] if isinstance(s, ast.Assign) for t in s.targets if isinstance(t, ast.Name)]
+            check_kw = kwarg(spawn_call, "check")
             checked = isinstance(check_kw, ast.Constant) and check_kw.value is True
 
             def rc_ok(atom: ast.expr, truth: bool) -> bool:
@@ -206,7 +293,21 @@ def run(prog: Program, ctx: Ctx) -> None:  # noqa: PLR0912,PLR0915
                     return isinstance(atom.ops[0], ast.Eq) and truth is True
                 return False
 
-            guarded = checked or cfg.dominated_by_fact(y, rc_ok)
+            if h_fn is fn:
+                guarded = checked or cfg.dominated_by_fact(y, rc_ok)
+            else:
+                # the add happens in a helper: the helper returns normally only when it succeeded (every return / fall-through after the call is
+                # dominated by the return-code test), so the yield, which follows the helper call, is reached only then
+                hcfg = cfg_of(h_fn)
+                after = hcfg.reach(cfg_nodes_containing(hcfg, spawn_call), normal_only=True)
+                exits = [(n_, lab) for n_ in after for b, lab in hcfg.succ[n_] if b is hcfg.exit and lab != "exc"]
+
+                def edge_ok(n_, lab) -> bool:
+                    if n_.kind == "test" and n_.expr is not None and lab in ("T", "F") and any(rc_ok(a_, t_) for a_, t_ in implied(n_.expr, lab == "T")):
+                        return True
+                    return hcfg.dominated_by_fact(n_, rc_ok)
+
+                guarded = checked or (bool(exits) and all(edge_ok(n_, lab) for n_, lab in exits))
             ctx.ob("R1", key(fn, "add-failure-raises"), guarded,
                    "yield is reached only when `worktree add` succeeded (returncode tested or check=True)", where(fn, call))
             # (a) pairing per release kind
@@ -227,7 +328,8 @@ def run(prog: Program, ctx: Ctx) -> None:  # noqa: PLR0912,PLR0915
                        where(fn, y.stmt), {"path": path_text(wit)})
         # (d) no release without a successful acquire: from the acquire's failure exits (the raise on a non-zero return code, or the call itself
         #     raising when check=True) no release statement is reachable - a `branch -D` there deletes a branch the user already had under that name
-        res_names_d = [t.id for s_ in [stmt_of(call)] if isinstance(s_, ast.Assign) for t in s_.targets if isinstance(t, ast.Name)]
+        h_fn_d, spawn_d, _m = ORIG.get(id(call), (fn, call, True))
+        res_names_d = [t.id for s_ in [stmt_of(spawn_d)] if isinstance(s_, ast.Assign) for t in s_.targets if isinstance(t, ast.Name)]
         fail_nodes = []
         for x in cfg.live_nodes():
             if x.kind == "stmt" and isinstance(x.stmt, ast.Raise) and x in cfg.reach(acq_nodes, avoid=lambda n_: n_ in ynodes, normal_only=True):
@@ -237,8 +339,9 @@ def run(prog: Program, ctx: Ctx) -> None:  # noqa: PLR0912,PLR0915
                     fail_nodes.append(x)
         all_rel = {n_ for kind_ in ("worktree remove", "branch -D") for f2, c, _o, _r in releases.get(kind_, []) if f2 is fn for n_ in cfg_nodes_containing(cfg, c)}
         starts_d = list(fail_nodes)
-        ck = kwarg(call, "check")
-        if isinstance(ck, ast.Constant) and ck.value is True:
+        ck = kwarg(spawn_d, "check")
+        if (isinstance(ck, ast.Constant) and ck.value is True) or h_fn_d is not fn:
+            # the failure leaves the (helper) call as an exception
             starts_d += [b for a in acq_nodes for b, lab in cfg.succ[a] if lab == "exc"]
         if starts_d:
             hit = cfg.reach(starts_d) & all_rel
@@ -290,7 +393,7 @@ def run(prog: Program, ctx: Ctx) -> None:  # noqa: PLR0912,PLR0915
             if f2 is not fn:
                 continue
             forced = any(isinstance(e, ast.Constant) and e.value in ("--force", "-f") for e in ops2)
-            ck = kwarg(c, "check")
+            ck = kwarg(ORIG.get(id(c), (fn, c, True))[1], "check")
             silent = isinstance(ck, ast.Constant) and ck.value is False
             ctx.ob("R2", key(fn, "worktree remove --force"), forced or not silent,
                    "`git worktree remove` without --force is refused when the checkout has untracked/modified files "
